@@ -8,7 +8,7 @@ caught = sys.argv[4:]
 V = os.path.dirname(os.path.dirname(os.path.abspath(__file__)))
 meta = json.load(open(os.path.join(mut, "meta.json")))
 def sh(c, **kw):
-    return subprocess.run(c, shell=True, capture_output=True, text=True, **kw)
+    return subprocess.run(c, shell=True, capture_output=True, text=True, errors="replace", **kw)
 def tests_ok():
     r = sh("make -j16 check 2>&1 | grep -E '^# (FAIL|ERROR):' | awk '{s+=$3} END {print s+0}'", cwd=wt)
     return r.stdout.strip() == "0"
